@@ -50,7 +50,7 @@ THEOREMS = [
         "skip_positions_ascii dir_is_iterated_skip dir_matches_load_ascii named_subset_is_filter_ascii "
         "dir_matches_load_ascii_written "
         # Props/C11d: rdop2record(form, N), rdop2tabheaders with short pieces
-        "rdRecord_form_consistent rdRecord_form_consistent_partial smallItems_trivial uint64_struct_path_counterexample "
+        "rdRecord_form_consistent "
         "rdRecord_N_irrelevant op2_tabheaders_any_pieces op2_tabheader_prefix "
         # Props/C11e: rdop2mats(names, which)
         "op2_name_test_exact op2_has_match_any op2_named_subset_is_filter op2_which_indexing op2_which_occurrence"
@@ -125,9 +125,8 @@ PARTIAL = (
     "(hand transcriptions), not a proof; (2) the binary OUTPUT4 skip / dir / named theorems are stated on encoded files (a general "
     "'aligned record lengths' form as for OUTPUT2 is not stated; the cut-off theorem IS general); (3) a round trip for ASCII files "
     "in the variants the writer never produces (D exponents, other nEw.d) is not proved - C04 proves it for the writer's files; the "
-    "variant files are read by the ASCII reader model and pyYeti with equal results (stream asc:generated); (4) finding "
-    "op2-rdop2record-uint-i64-struct-format-stays-signed: form 'uint' with 64-bit keys is proved only under SmallItems "
-    "(rdRecord_form_consistent_partial; necessity: uint64_struct_path_counterexample); (5) dict mode: the value per key is proved "
+    "variant files are read by the ASCII reader model and pyYeti with equal results (stream asc:generated); (4) [closed: form 'uint' "
+    "with 64-bit keys holds at full strength since the repair of F50, pyYeti b194dbc]; (5) dict mode: the value per key is proved "
     "(last occurrence), the key ORDER (first appearance) only checked by correspondence; the COO view (cooOfPuts, the 1j*y sign "
     "quirk) and numpy's slice semantics on ill-formed puts (assignCol) are model definitions checked by correspondence; "
     "(6) rdop2record on arbitrary bytes (no encoder) and rdop2mats(lower=True / header tuples / names=[]) are not treated; "
@@ -148,8 +147,8 @@ MANIFEST = {
     "files of pyyeti/tests and on truncated / ill-formed files.",
     "level_note": "Partial: the reader models are tied to op4.py / op2.py by differential checking (hand transcriptions, no "
     "translator); OUTPUT4 binary skip/dir/named theorems are about encoded files; ASCII variant round trip (D exponents, other "
-    "widths) by correspondence only; finding op2-rdop2record-uint-i64-struct-format-stays-signed excluded by an explicit hypothesis "
-    "(counterexample proved). The OUTPUT2 layout is the one pyYeti's reader defines. Trusted: Lean kernel, standard axioms, the "
+    "widths) by correspondence only; finding F50 (rdop2record 'uint' with 64-bit keys, repaired in b194dbc) is guarded by a fixed "
+    "oracle case and the rec2 stream. The OUTPUT2 layout is the one pyYeti's reader defines. Trusted: Lean kernel, standard axioms, the "
     "Python harness.",
     "technique": "Lean 4 proof (induction over strings / pieces / columns / records / matrices with fuel-indexed loops, byte-level "
     "two's-complement lemmas, simulation proofs skipper-vs-reader and cutoff-vs-cutoff on arbitrary inputs) + independent Lean "
@@ -989,7 +988,7 @@ def correspondence(ctx):
                                     "stream:asc:generated", "stream:asc:named", "asc:model-D", "asc:model-E", "asc:named-selects-none",
                                     "asc:named-selects-some", "stream:rec2:int", "stream:rec2:uint", "stream:rec2:single", "stream:rec2:double",
                                     "stream:rec2:bytes", "rec2:N=0", "rec2:N>0", "rec2:other-cutoff", "rec2:result-ok", "rec2:result-none",
-                                    "rec2:result-err", "rec2:piece-length-not-a-multiple-of-the-item-width", "stream:mats2:names-none",
+                                    "rec2:result-err", "rec2:piece-length-not-a-multiple-of-the-item-width", "rec2:uint-i64-top-bit-below-cutoff", "stream:mats2:names-none",
                                     "stream:mats2:names-plain", "stream:mats2:names-wildcard", "mats2:which--1", "mats2:which-0",
                                     "mats2:which-all", "mats2:selects-none", "mats2:selects-some", "mats2:raises-index"])
     finally:
@@ -1981,10 +1980,6 @@ def _op2_forms_stream(ctx, op2, drv, sc, encoded):
         ctx.case((stream, hashlib_key(data), pos, N, cut), nontrivial=True, branch="stream:" + stream)
         model = _parse_rec2(r)
         if model[0] == "err" and model[1] in ("exotic", "fuel"):
-            if impl == ("err", "exotic") and form == "u" and case["bit64"]:
-                # model and code agree on the finding: OverflowError of the signed struct format below the cut-off
-                ctx.count("rec2:uint-i64-overflow-below-cutoff")
-                continue
             ctx.skip("rdop2record: N larger than the record (uninitialised tail of np.empty) or behaviour outside the model")
             continue
         if impl != model:
@@ -1995,6 +1990,9 @@ def _op2_forms_stream(ctx, op2, drv, sc, encoded):
             continue
         ctx.count("rec2:N%s" % ("=0" if N == 0 else ">0"))
         ctx.count("rec2:result-%s" % model[0])
+        if form == "u" and case["bit64"] and model[0] == "ok" and cut > len(model[2]) and any(x >= 1 << 63 for x in model[2]):
+            # the input family of the repaired finding F50: model and code agree on the UNSIGNED value on the struct path
+            ctx.count("rec2:uint-i64-top-bit-below-cutoff")
         if misaligned:
             ctx.count("rec2:piece-length-not-a-multiple-of-the-item-width")
         if model[0] == "ok" and N == 0 and cut != 3000:
@@ -2156,7 +2154,8 @@ def _oracle_op4_subsets(op4, path, mats):
     return None
 
 
-_UINT_FINDING = "op2-rdop2record-uint-i64-struct-format-stays-signed"
+# family of finding F50 (repaired in pyYeti b194dbc); the fixed oracle cases below stay as a regression guard
+_FIXED_F50 = "op2-rdop2record-uint-i64-struct-format-stays-signed"
 
 
 def _oracle_op2_forms(op2, path, case):
@@ -2192,7 +2191,7 @@ def _oracle_op2_forms(op2, path, case):
                                 got = o2.rdop2record(form, N)
                             except Exception as ex:  # noqa: BLE001
                                 o2._rowsCutoff = 3000
-                                fam = _UINT_FINDING if (form == "uint" and kb == 8 and isinstance(ex, OverflowError)) else None
+                                fam = _FIXED_F50 if (form == "uint" and kb == 8 and isinstance(ex, OverflowError)) else None
                                 if fam:  # the known family: note it once, go on with the other checks
                                     finding = finding or ("rdop2record-form-raises", {"form": form, "N": N, "_rowsCutoff": cut,
                                                           "record": [list(pc) for pc in pieces][:4], "raises": "%s: %s" % (type(ex).__name__, ex)},
@@ -2438,7 +2437,7 @@ def search(ctx, hints):
                 cases.append(_from_json(c))
         rng = ctx.rng
         # fixed cases (every run): a 64-bit table record holding a negative key, read with every form (the family of
-        # finding op2-rdop2record-uint-i64-struct-format-stays-signed), and its 32-bit twin
+        # repaired finding F50, op2-rdop2record-uint-i64-struct-format-stays-signed: regression guard), and its 32-bit twin
         for b64 in (True, False):
             cases.append({"kind": "op2", "endian": "l", "bit64": b64, "date": [1, 2, 3], "label": "PYYETI",
                           "blocks": [{"t": "t", "name": "TAB1", "trailer": [101, 0, 0, 0, 0, 0, 0], "records": [[[5, -1, 7, 8]], [[1, 2, 3], [4, -5, 6, 7]]]}]})
@@ -2462,12 +2461,12 @@ def search(ctx, hints):
                 if ntime >= 2:
                     break
                 continue
-            if r is not None and len(r) > 3 and r[3] == _UINT_FINDING:
+            if r is not None and len(r) > 3 and r[3] == _FIXED_F50:
                 if not ctx.extra.get("uint_finding_reported"):
                     ctx.extra["uint_finding_reported"] = True
                     c = _shrink(ctx, sc, case)
                     r2 = _oracle_case(ctx, sc, c) or r
-                    ctx.fail(_UINT_FINDING, "rdop2record(form='uint') in a file with 64-bit keys raises OverflowError below _rowsCutoff for a key "
+                    ctx.fail(_FIXED_F50, "rdop2record(form='uint') in a file with 64-bit keys raises OverflowError below _rowsCutoff for a key "
                              "with its top bit set (signed struct format '%dq'), and returns the unsigned values from the cut-off on",
                              _jsonable_case(c), r2[1], r2[2])
                 ctx.count("oracle:uint-i64-finding-seen")
